@@ -49,8 +49,8 @@ def run(ctx, driver):
                 "dictionary (identity at 0, d/dh = rhs at the updated state, semigroup) at 3 random 40-digit points; (b) correspondence of component cut and "
                 "update-expression assembly (incl. the guarded error paths, reached by bypassing the demotion rules in every 4th case); distinct = distinct inputs; "
                 "non-trivial = analytical solver with >= 2 variables or an offset")
-    cases = gen(ctx, 64 if quick else 1200)
-    flow = _shared.run_full(ctx, cases, timeout=45 if quick else 120, frac=0.5)
+    cases = gen(ctx, ctx.n(64, 1200))
+    flow = _shared.run_full(ctx, cases, timeout=ctx.n(45, 120), frac=0.5)
     for case, res in zip(cases, flow):
         ctx.evaluations += 1
         if not _shared.usable(ctx, res):
@@ -81,7 +81,7 @@ def run(ctx, driver):
                                                                "signature": {"site": "analytical solver", "shape": case.get("shape")}})
     ctx.sample({"indict": cases[-1]["indict"], "analytical": [s for s in (flow[-1].get("solvers") or []) if s["solver"] == "analytical"][:1] if isinstance(flow[-1], dict) else None})
     # ---- correspondence: components + assembly
-    asm = pool.run_cases("harness.core.cases", "case_assembly", cases, timeout=45 if quick else 120, init="init_worker", deadline=ctx.deadline())
+    asm = pool.run_cases("harness.core.cases", "case_assembly", cases, timeout=ctx.n(45, 120), init="init_worker", deadline=ctx.deadline())
     ops = []
     for case, res in zip(cases, asm):
         if not _shared.usable(ctx, res, "asm:") or res.get("skip"):
